@@ -9,6 +9,7 @@ import (
 	"fmt"
 
 	"seehuhn.de/go/pdf"
+	"seehuhn.de/go/pdf/verifharness/common"
 )
 
 // item: one indirect object of a hand-laid-out file
@@ -313,4 +314,48 @@ func (g *generator) compressedDoc(i int) *doc {
 	}
 	d.class = fmt.Sprintf("compressed-object-streams %d", i)
 	return d
+}
+
+// intObjects: the H-parse instance.  The Coq reader IntObjects.parse_int is compared with
+// scanner.ReadIndirectObject on objects `N G obj LF digits LF endobj`: on the complete text,
+// on every proper prefix, and with nothing or LF + arbitrary bytes appended (what can follow
+// a chunk in a file).
+func (t *runner) intObjects() {
+	e := t.e
+	type io struct {
+		num, gen int
+		val      string
+	}
+	objs := []io{{1, 0, "0"}, {12, 0, "345"}, {7, 3, "2147483647"}, {123456, 65535, "00012"}, {9, 0, "7"}, {10, 1, "10"}}
+	for i := 0; i < e.Pick(20, 400); i++ {
+		objs = append(objs, io{1 + e.Rand.IntN(8000000), e.Rand.IntN(3) * e.Rand.IntN(30000), fmt.Sprint(e.Rand.IntN(1 << 30))})
+	}
+	suffixes := []string{"", "\n", "\nxref\n", "\n1 0 obj\n", "\n%%EOF\n", "\nendobj\n", "\n\x00\xff"}
+	n := 0
+	run := func(num, gen int, data []byte, class string) {
+		n++
+		id := fmt.Sprintf("i%d", n)
+		fi := &pdf.FileInfo{R: bytes.NewReader(data), FileSize: int64(len(data))}
+		x, err := safeParse(fi, &pdf.FileObject{ObjStart: 0, Reference: pdf.NewReference(uint32(num), uint16(gen))})
+		obs := "fail"
+		if err == nil {
+			if v, ok := x.(pdf.Integer); ok {
+				obs = fmt.Sprintf("ok:%d", int64(v))
+			} else {
+				obs = "ok:other"
+			}
+		}
+		e.Line("cases.txt", "%s I %s", id, common.Hex(data))
+		e.Line("impl.obs", "%s %s", id, obs)
+		e.Count(true, "int "+string(data), class)
+	}
+	for _, o := range objs {
+		text := fmt.Sprintf("%d %d obj\n%s\nendobj", o.num, o.gen, o.val)
+		for k := 0; k < len(text); k++ {
+			run(o.num, o.gen, []byte(text[:k]), "integer object: proper prefix")
+		}
+		for _, sfx := range suffixes {
+			run(o.num, o.gen, []byte(text+sfx), "integer object: complete, bytes appended")
+		}
+	}
 }
